@@ -506,7 +506,8 @@ func runC10(c *Ctx) {
 			case 5: // supervoxel split (one)
 				opName = "svsplit"
 				sv := pickLabel(r, present, 0.15)
-				splitL, remainL := uint64(1<<43)+uint64(r.Intn(1000)), uint64(1<<44)+uint64(r.Intn(1000))
+				// fresh ids, as the server issues them: never a label the block already holds (k is the op's index)
+				splitL, remainL := uint64(1<<43)+uint64(1000*k+r.Intn(1000)), uint64(1<<44)+uint64(1000*k+r.Intn(1000))
 				rs := genRunsIn(r, v, sv)
 				withRuns := r.Chance(0.85)
 				history += fmt.Sprintf("SplitSupervoxel sv %d split %d remain %d runs(local) %s inOp=%v\n", sv, splitL, remainL, runsStr(rs), withRuns)
@@ -550,7 +551,7 @@ func runC10(c *Ctx) {
 				for i := 0; i < n; i++ {
 					l := pickLabel(r, present, 0.2)
 					if l != 0 {
-						svs[l] = labels.SVSplit{Split: uint64(1<<45) + uint64(2*i), Remain: uint64(1<<45) + uint64(2*i+1)}
+						svs[l] = labels.SVSplit{Split: uint64(1<<45) + uint64(16*k+2*i), Remain: uint64(1<<45) + uint64(16*k+2*i+1)}
 					}
 				}
 				history += fmt.Sprintf("SplitSupervoxels %v runs(local) %s\n", svs, runsStr(rs))
